@@ -22,6 +22,8 @@ mod verif_kani {
     /// the deadline as a number (ValidUntil has no getter): smallest now for which valid(now) is false
     fn deadline(p: &Peer) -> u32 { unsafe { std::mem::transmute::<ValidUntil, u32>(p.valid_until) } }
 
+    fn bytes_eq(a: &[u8; 20], b: &[u8; 20]) -> bool { let mut i = 0; while i < 20 { if a[i] != b[i] { return false; } i += 1; } true }
+
     type E<I> = (ResponsePeer<I>, Peer);
 
     /// every inline-map state: 0, 1 or 2 entries, all fields symbolic, keys distinct (the type's invariant)
@@ -115,17 +117,25 @@ mod verif_kani {
         let mut msgs = Vec::new();
         let now: u32 = kani::any();
         let (s, l) = m.clean_and_get_num_peers(&config, &mut msgs, SecondsSinceServerStart::new_raw(now));
-        // expected: entries with deadline > now, in order
-        let mut w = 0; let mut es = 0; let mut i = 0;
-        while i < n {
-            let e = old[i].unwrap();
-            if deadline(&e.1) > now {
-                assert!(w < m.0.len() && m.0[w].0 == e.0 && peer_eq(&m.0[w].1, &e.1), "[C10.udp.small.clean.keeps_unexpired] a peer whose deadline is in the future is kept");
-                if e.1.is_seeder { es += 1; }
-                w += 1;
+        let mut total = 0; let mut es = 0;
+        let mut j = 0;
+        while j < SMALL_PEER_MAP_CAPACITY {
+            let mut c = 0; let mut i = 0; es = 0;
+            while i < n {
+                let e = old[i].unwrap();
+                if deadline(&e.1) > now {
+                    if c == j {
+                        assert!(j < m.0.len() && m.0[j].0 == e.0 && peer_eq(&m.0[j].1, &e.1), "[C10.udp.small.clean.keeps_unexpired] a peer whose deadline is in the future is kept, unchanged, in order");
+                    }
+                    if e.1.is_seeder { es += 1; }
+                    c += 1;
+                }
+                i += 1;
             }
-            i += 1;
+            total = c;
+            j += 1;
         }
+        let w = total;
         assert!(m.0.len() == w, "[C10.udp.small.clean.removes_expired] a peer at or past its deadline is removed");
         assert!(s == es && s + l == w, "[C01.udp.small.clean.counts][C20.udp.small.clean.counts] returned counts are those of the remaining peers");
         assert!(msgs.is_empty(), "[C20.udp.small.clean.no_msgs_when_off]");
@@ -174,25 +184,33 @@ mod verif_kani {
         let mut msgs = Vec::new();
         let now: u32 = kani::any();
         let (s, l) = m.clean_and_get_num_peers(&config, &mut msgs, SecondsSinceServerStart::new_raw(now));
-        let mut w = 0; let mut es = 0; let mut i = 0;
-        while i < n {
-            let e = old[i].unwrap();
-            if deadline(&e.1) > now {
-                assert!(w < m.peers.model_len(), "[C10.udp.large.clean.keeps_unexpired] a peer whose deadline is in the future is kept");
-                let (k, v) = m.peers.model_entry(w);
-                assert!(*k == e.0, "[C10.udp.large.clean.keeps_unexpired] kept peers are in order (key)");
-                assert!(v.peer_id == e.1.peer_id, "[C10.udp.large.clean.keeps_unexpired] kept peers are unchanged (peer id)");
-                assert!(v.is_seeder == e.1.is_seeder, "[C10.udp.large.clean.keeps_unexpired] kept peers are unchanged (seeder flag)");
-                assert!(deadline(v) == deadline(&e.1), "[C10.udp.large.clean.keeps_unexpired] kept peers are unchanged (deadline)");
-                if e.1.is_seeder { es += 1; }
-                w += 1;
+        // expected: the entries with deadline > now, in order.  Slot j of the result is compared with the j-th such entry;
+        // all indices are loop constants (see the note in indexmap_model).
+        let mut total = 0; let mut es = 0;
+        let mut j = 0;
+        while j < N {
+            let mut c = 0; let mut i = 0; es = 0;
+            while i < n {
+                let e = old[i].unwrap();
+                if deadline(&e.1) > now {
+                    if c == j {
+                        assert!(j < m.peers.model_len(), "[C10.udp.large.clean.keeps_unexpired] a peer whose deadline is in the future is kept");
+                        let (k, v) = m.peers.model_entry(j);
+                        let (kk, ek) = (*k, e.0);
+                        assert!(kk == ek && peer_eq(v, &e.1), "[C10.udp.large.clean.keeps_unexpired] kept peers are unchanged and in order");
+                    }
+                    if e.1.is_seeder { es += 1; }
+                    c += 1;
+                }
+                i += 1;
             }
-            i += 1;
+            total = c;
+            j += 1;
         }
-        assert!(m.peers.model_len() == w, "[C10.udp.large.clean.removes_expired] a peer at or past its deadline is removed");
+        assert!(m.peers.model_len() == total, "[C10.udp.large.clean.removes_expired] a peer at or past its deadline is removed");
         assert!(m.num_seeders == es, "[C01.udp.large.clean.wf] cached seeder counter = stored seeders after cleaning");
-        assert!(s == es && s + l == w, "[C01.udp.large.clean.counts][C20.udp.large.clean.counts] returned counts are those of the remaining peers");
-        kani::cover!(w < n && w > 0);
+        assert!(s == es && s + l == total, "[C01.udp.large.clean.counts][C20.udp.large.clean.counts] returned counts are those of the remaining peers");
+        kani::cover!(total < n && total > 0);
     }
     #[kani::proof] #[kani::unwind(22)] fn large_clean_v4_3() { large_clean::<Ipv4AddrBytes, 3>() }
     #[kani::proof] #[kani::unwind(22)] fn large_clean_v4_5() { large_clean::<Ipv4AddrBytes, 5>() }
@@ -210,4 +228,91 @@ mod verif_kani {
         }
     }
     #[kani::proof] #[kani::unwind(22)] fn large_try_shrink_v4_4() { large_try_shrink::<Ipv4AddrBytes, 4>() }
+
+    // ---------------- C20: per-client tallies follow the stored peer ids ----------------
+    // `Sender::try_send` is replaced by a recorder (the channel is unbounded: the real call cannot fail).
+    static mut LOG_N: usize = 0;
+    static mut LOG: [(bool, [u8; 20]); 4] = [(false, [0; 20]); 4];   // (is_added, peer id)
+    fn try_send_rec<T>(_s: &Sender<T>, msg: T) -> Result<(), crossbeam_channel::TrySendError<T>> {
+        assert!(std::mem::size_of::<T>() == std::mem::size_of::<StatisticsMessage>(), "harness: recorder used for another channel type");
+        let m: &StatisticsMessage = unsafe { &*(&msg as *const T as *const StatisticsMessage) };
+        let rec = match m {
+            StatisticsMessage::PeerAdded(id) => Some((true, id.0)),
+            StatisticsMessage::PeerRemoved(id) => Some((false, id.0)),
+            _ => None,
+        };
+        if let Some(r) = rec {
+            unsafe {
+                assert!(LOG_N < 4, "harness: log too small");
+                LOG[LOG_N] = r;
+                LOG_N += 1;
+            }
+        }
+        std::mem::forget(msg);
+        Ok(())
+    }
+    fn tally(id: &[u8; 20]) -> i32 {
+        let mut t = 0; let mut i = 0;
+        unsafe { while i < LOG_N { if LOG[i].1 == *id { t += if LOG[i].0 { 1 } else { -1 }; } i += 1; } }
+        t
+    }
+    fn stored_with_id<I: Ip>(m: &PeerMap<I>, id: &[u8; 20]) -> i32 {
+        let mut c = 0;
+        match m {
+            PeerMap::Small(s) => { let mut i = 0; while i < s.0.len() { if s.0[i].1.peer_id.0 == *id { c += 1; } i += 1; } }
+            PeerMap::Large(l) => { let mut i = 0; while i < l.peers.model_len() { if l.peers.model_entry(i).1.peer_id.0 == *id { c += 1; } i += 1; } }
+        }
+        c
+    }
+    fn any_request() -> AnnounceRequest {
+        let ev = match kani::any::<u8>() % 4 { 0 => AnnounceEvent::None, 1 => AnnounceEvent::Completed, 2 => AnnounceEvent::Started, _ => AnnounceEvent::Stopped };
+        AnnounceRequest {
+            connection_id: ConnectionId::new(0), action_placeholder: AnnounceActionPlaceholder::Announce, transaction_id: TransactionId::new(kani::any()),
+            info_hash: InfoHash([0; 20]), peer_id: PeerId(kani::any()), bytes_downloaded: NumberOfBytes::new(0), bytes_left: NumberOfBytes::new(kani::any()),
+            bytes_uploaded: NumberOfBytes::new(0), event: ev, ip_address: Ipv4AddrBytes([0; 4]), key: PeerKey::new(0),
+            peers_wanted: NumberOfPeers::new(kani::any()), port: Port(kani::any::<u16>().into()),
+        }
+    }
+
+    /// one announce on every inline-map state with per-client statistics on: for every peer id, the change in the number of stored
+    /// peers carrying it equals PeerAdded minus PeerRemoved messages for it
+    #[kani::proof] #[kani::unwind(22)]
+    #[kani::stub(crossbeam_channel::Sender::try_send, try_send_rec)]
+    fn tally_announce_small_v4() {
+        let mut pm = PeerMap::Small(any_small::<Ipv4AddrBytes>());
+        let mut config = Config::default();
+        config.statistics.peer_clients = true;
+        let (sender, _receiver) = crossbeam_channel::unbounded::<StatisticsMessage>();
+        let mut rng = <SmallRng as rand::SeedableRng>::seed_from_u64(1);
+        let request = any_request();
+        let ip = Ipv4AddrBytes(kani::any());
+        // ids to watch: the request's, and the one stored under the announcer's key (if any)
+        let key = ResponsePeer { ip_address: ip, port: request.port };
+        let mut stored_id: Option<[u8; 20]> = None;
+        if let PeerMap::Small(s) = &pm { let mut i = 0; while i < s.0.len() { if s.0[i].0 == key { stored_id = Some(s.0[i].1.peer_id.0); } i += 1; } }
+        let before_req = stored_with_id(&pm, &request.peer_id.0);
+        let before_old = match stored_id { Some(id) => stored_with_id(&pm, &id), None => 0 };
+        let _ = pm.announce(&config, &sender, &mut rng, &request, ip, ValidUntil::new_raw(SecondsSinceServerStart::new_raw(kani::any())));
+        let after_req = stored_with_id(&pm, &request.peer_id.0);
+        let stopped = matches!(request.event, AnnounceEvent::Stopped);
+        match stored_id {
+            None => {
+                assert!(after_req - before_req == tally(&request.peer_id.0), "[C20.tally.announce.new_key] a new peer is tallied once (nothing on a stop of an unknown peer)");
+            }
+            Some(old) if old == request.peer_id.0 => {
+                assert!(after_req - before_req == tally(&request.peer_id.0), "[C20.tally.announce.same_id] re-announce / stop with the stored id");
+            }
+            Some(old) => {
+                let after_old = stored_with_id(&pm, &old);
+                if stopped {
+                    assert!(after_old - before_old == tally(&old) && after_req - before_req == tally(&request.peer_id.0),
+                        "[C20.tally.announce.stop_other_id] a stop removes the STORED peer id from the tallies");
+                } else {
+                    assert!(after_old - before_old == tally(&old) && after_req - before_req == tally(&request.peer_id.0),
+                        "[C20.tally.announce.id_change] a peer that changes id: old id removed, new id added");
+                }
+            }
+        }
+        kani::cover!(stored_id.is_some());
+    }
 }
